@@ -77,6 +77,12 @@ def run(ctx):
                     cases.append({'op': 'eq', 'lang': lang, 'f': tower(x, h, lang), 'g': tower(y, h, lang), 'style': 'obj', 'style2': 'obj'})
                     cases.append({'op': 'eq', 'lang': lang, 'f': tower(x, h, lang), 'g': tower(x, h, lang), 'style': 'obj', 'style2': 'raw'})
                 cases.append({'op': 'clone', 'lang': lang, 'f': tower(pairs[0][0], h, lang), 'style': 'obj'})
+    leafpairs = [(('true',), ('false',)), (('true',), ('ap', 'true_')), (('ap', 'p'), ('ap', 'q_1')), (('false',), ('ap', 'p')), (('ap', 'p'), ('ap', 'p'))]
+    for lang in ('PL', 'LTL', 'CTL', 'CTLS'):
+        for h in (40, 120, 205, 231):
+            for x, y in leafpairs:
+                for wrap in (lambda z: z, lambda z: ('and', ('ap', 'p'), z), lambda z: ('or', z, ('ap', 'r'), ('true',))):
+                    cases.append({'op': 'eq', 'lang': lang, 'f': tower(wrap(x), h, lang), 'g': tower(wrap(y), h, lang), 'style': 'obj', 'style2': rnd.choice(['obj', 'raw'])})
     keep = synfam.run_events(ctx, cases)
     for c, ev in keep:
         if ev['op'] == 'eq' and ev['f'] != ev['g']:
